@@ -207,3 +207,20 @@ Proof.
   - intros H. apply nat2q_inj. rewrite H. apply Qc_is_canon. reflexivity.
   - intros ->. apply Qc_is_canon. reflexivity.
 Qed.
+
+(* bin packing on a 0/1 placement: "every item in exactly one bin" literally *)
+Theorem bp_feasible_bool weights capacity (x : sample) (place : nat -> nat -> bool) :
+  let n := length weights in
+  (forall i j, (i < n)%nat -> (j < n)%nat -> x (bp_x n i j) = if place i j then 1 else 0) ->
+  (feasibleb (bp_model weights capacity) x = true
+   <-> (forall i, (i < n)%nat -> count_ones n (place i) = 1%nat) /\
+       (forall j, (j < n)%nat -> bp_load weights n x j <= capacity * x (bp_y j))).
+Proof.
+  intros n Hx. rewrite bp_feasible. fold n.
+  assert (Hc : forall i, (i < n)%nat -> (bp_count n x i = 1 <-> count_ones n (place i) = 1%nat)).
+  { intros i Hi. unfold bp_count.
+    rewrite (range_sum_ext n (fun j => x (bp_x n i j)) (fun j => if place i j then 1 else 0))
+      by (intros j Hj; apply Hx; assumption).
+    apply exactly_one. }
+  split; intros [H1 H2]; (split; [|exact H2]); intros i Hi; apply (Hc i Hi); apply H1; exact Hi.
+Qed.
